@@ -1,7 +1,10 @@
 #!/bin/bash
-# run the thorough tier of every check (no evidence written; used through `vp run`), report exit codes and findings
+# run the thorough tier of every check (no evidence written; used through `vp run`), report exit codes and findings;
+# exit status: 0 when every check exited 0, else 1
+overall=0
 for c in ${@:-C12 C20 C11 C06 C04 C02 C05 C01 C14}; do
   out=$(./check $c --tier thorough --no-evidence 2>&1); rc=$?
   echo "$c exit=$rc $(echo "$out" | tail -1 | cut -c1-200)"
-  [ $rc -ne 0 ] && echo "$out" | grep -E "class=|^VIOLATION|HARNESS|^    " | head -12 | cut -c1-600
+  if [ $rc -ne 0 ]; then overall=1; echo "$out" | grep -E "class=|^VIOLATION|HARNESS|^    " | head -12 | cut -c1-600; fi
 done
+exit $overall
